@@ -30,12 +30,12 @@ def bound (x : α) : Py α :=
   else if lt x (-one) then .ok (-one)
   else .ok x
 
-/-- `math.asin` -/
-def pyAsin (x : α) : Py α := if le (abs x) one then .ok (asin x) else .error .valueError
+/-- `math.asin`: ValueError strictly outside [-1, 1]; NaN passes through (as in CPython) -/
+def pyAsin (x : α) : Py α := if lt one (abs x) then .error .valueError else .ok (asin x)
 /-- `math.acos` -/
-def pyAcos (x : α) : Py α := if le (abs x) one then .ok (acos x) else .error .valueError
-/-- `math.sqrt` -/
-def pySqrt (x : α) : Py α := if le zero x then .ok (sqrt x) else .error .valueError
+def pyAcos (x : α) : Py α := if lt one (abs x) then .error .valueError else .ok (acos x)
+/-- `math.sqrt`: ValueError below zero; NaN passes through -/
+def pySqrt (x : α) : Py α := if lt x zero then .error .valueError else .ok (sqrt x)
 /-- Python float division -/
 def pyDiv (x y : α) : Py α := if beq y zero then .error .zeroDiv else .ok (x / y)
 
